@@ -230,57 +230,7 @@ def c2_tables(fb, rep):
             rep.ob(clause, 'K10 inverse tables', 'built-in book: promToPiece(pieceToProm(p), colour(p)) == p for every promotion piece and for "none"', not bad, p2p.where, str(bad), p2p.sname)
 
 
-def _run_switchy(ev, f, env):
-    """Evaluate a function whose body is a switch over a parameter returning constants."""
-    # find the switch block and follow the matching case
-    b = f.entry
-    steps = 0
-    env = dict(env)
-    while True:
-        steps += 1
-        if steps > 200:
-            raise Unknown('loop')
-        blk = f.blocks[b]
-        for e in blk['ev']:
-            if e.get('k') == 'ret':
-                return ev.eval(e['e'], env)
-            if e.get('k') == 'decl':
-                for v in e.get('vars', []):
-                    if v.get('init') is not None:
-                        try:
-                            env[('v', v['id'])] = ev.eval(v['init'], env)
-                        except Unknown:
-                            pass
-            if e.get('k') == 'asg' and isinstance(e.get('l'), dict) and e['l'].get('k') == 'var':
-                env[('v', e['l']['id'])] = ev.eval(e['r'], env)
-        succ = blk['succ']
-        term = blk.get('term') or {}
-        if not succ:
-            raise Unknown('no return')
-        if term.get('c') == 'SwitchStmt':
-            val = ev.eval(term.get('cond'), env)
-            nxt = None
-            dflt = None
-            for s in succ:
-                lb = f.blocks[s].get('label') or {}
-                if lb.get('k') == 'case' and lb.get('v') == val:
-                    nxt = s
-                if lb.get('k') == 'default':
-                    dflt = s
-            if nxt is None:
-                # labels that fall through are chained blocks: search all case-labelled blocks
-                for bid, bb in f.blocks.items():
-                    lb = bb.get('label') or {}
-                    if lb.get('k') == 'case' and lb.get('v') == val:
-                        nxt = bid
-            b = nxt if nxt is not None else (dflt if dflt is not None else succ[-1])
-            continue
-        if len(succ) == 1:
-            b = succ[0]
-            continue
-        c = eff_cond(term)
-        v = ev.eval(c, env)
-        b = succ[0] if v else succ[1]
+from ..peval import run_switch as _run_switchy
 
 
 def c3_files(fb, rep):
